@@ -43,3 +43,10 @@ Theorem C18_leave_empty_or_unknown_refused :
   exists e, sm_step s (OLeave id) = (s, e, -1) /\ e <> SOk.
 Proof. exact leave_refused. Qed.
 Print Assumptions C18_leave_empty_or_unknown_refused.
+
+(* no sequence of seat operations makes the seat manager crash: no operation on any state (hence
+   on any state of any history) ends in the panic outcome *)
+From PF Require Import ProofsSeat.
+Theorem C18_never_panics : forall s o, snd (fst (sm_step s o)) <> SPanic.
+Proof. exact sm_step_never_panics. Qed.
+Print Assumptions C18_never_panics.
